@@ -855,7 +855,8 @@ func (u *Unmarshaler) processNamedField(field reflect.StructField, value reflect
 	}
 
 	if u.opts.fromArray {
-		fieldKind := field.Type.Kind()
+		// the field may be a pointer to a slice
+		fieldKind := Deref(field.Type).Kind()
 		if fieldKind != reflect.Slice && fieldKind != reflect.Array {
 			valueKind := reflect.TypeOf(mapValue).Kind()
 			if valueKind == reflect.Slice || valueKind == reflect.Array {
